@@ -92,7 +92,7 @@ func (p *Program) VerifyFunc(fc *FuncContract) (res *FuncResult) {
 
 func (x *Exec) initState() *State {
 	st := &State{X: x, A: x.A, Mems: map[string]*Term{}, Heap: map[string]*Term{}, Cells: map[*Cell]Value{},
-		Ghost: map[string]Value{}, Held: map[string]*Term{}, Loops: map[*ssa.BasicBlock]int{}, InLoop: map[*ssa.BasicBlock]*loopEntry{}}
+		Ghost: map[string]Value{}, Held: map[string]*Term{}, Loops: map[*ssa.BasicBlock]int{}, InLoop: map[*ssa.BasicBlock]*loopEntry{}, monObjs: map[string]monObj{}, lockSnap: map[string]*State{}}
 	st.Alloc = Var("alloc0", SInt)
 	st.Assume(ILe(IntC(0), st.Alloc))
 	f := &Frame{Fn: x.Fn, Regs: map[ssa.Value]Value{}, Block: x.Fn.Blocks[0]}
@@ -165,7 +165,22 @@ func (x *Exec) initGhosts(st *State) {
 	env := &Env{X: x, St: st, Old: st, Vars: vars, OldVars: x.ParamVals, FC: x.FC, PkgPath: x.Pkg}
 	x.runGhosts(st, env, "entry")
 }
-func (x *Exec) entryAssumptions(st *State, env *Env) {}
+func (x *Exec) entryAssumptions(st *State, env *Env) {
+	// axioms about globals of dependencies; an axiom that does not resolve in this package is irrelevant here
+	for _, ax := range x.P.CS.Axioms {
+		func() {
+			defer func() {
+				if r := recover(); r != nil {
+					if _, ok := r.(evalErr); !ok {
+						panic(r)
+					}
+				}
+			}()
+			aenv := &Env{X: x, St: st, Old: st, Vars: map[string]Value{}, PkgPath: x.Pkg}
+			st.Assume(x.evalBool(aenv, ax.Expr))
+		}()
+	}
+}
 
 // VerifyLemma discharges a pure spec-level lemma.
 func (p *Program) VerifyLemma(fc *FuncContract) (res *FuncResult) {
@@ -190,7 +205,7 @@ func (p *Program) VerifyLemma(fc *FuncContract) (res *FuncResult) {
 		}
 	}()
 	st := &State{X: x, A: x.A, Mems: map[string]*Term{}, Heap: map[string]*Term{}, Cells: map[*Cell]Value{},
-		Ghost: map[string]Value{}, Held: map[string]*Term{}}
+		Ghost: map[string]Value{}, Held: map[string]*Term{}, monObjs: map[string]monObj{}, lockSnap: map[string]*State{}}
 	st.Alloc = Var("alloc0", SInt)
 	st.Assume(ILe(IntC(0), st.Alloc))
 	env := &Env{X: x, St: st, Old: st, Vars: map[string]Value{}, FC: fc, PkgPath: fc.Pkg}
